@@ -366,7 +366,7 @@ def classify_c19(op, impl, model_line):
 
 _VERIF = __import__("os").path.dirname(__import__("os").path.dirname(__import__("os").path.abspath(__file__)))
 PROPS["C19"] = dict(
-    n_quick=16000, n_thorough=300000, classify=classify_c19, pre=["build_cpp"], timeout=1800,
+    n_quick=16000, n_thorough=300000, classify=classify_c19, pre=["build_cpp"], timeout=1800, op_deadline=20,
     impl_cmd=[__import__("os").path.join(_VERIF, "build", "cpp", "cppdriver")],
     ref_cmd=[__import__("os").path.join(_VERIF, "build", "gfsharness"), "run"],
     rule="three-way run of the x.* operations: the C++ port (driver built from /repo/cpp on every run), the Go library (harness "
